@@ -616,7 +616,10 @@ class AnsiString:
             new_len = len(new_s._s)
             if new_len not in new_s._fmts:
                 new_s._fmts[new_len] = _AnsiSettingPoint()
-            settings_to_remove = [s for s in previous_settings if s not in new_s._fmts[new_len].rem]
+            settings_to_remove = [
+                s for s in previous_settings
+                if __class__._find_setting_reference(s, new_s._fmts[new_len].rem) < 0
+            ]
             new_s._fmts[new_len].rem.extend(settings_to_remove)
 
         return new_s
